@@ -1,12 +1,89 @@
-"""C16 — thorough tier: the correspondence workload once more through a release build of
-`emlv-C16` (see props/_own_release.py): the failure values (`None`, `Err`) are the same without
-the dev profile's overflow checks."""
+"""C16 — extra steps.
+
+1. API surface (both tiers).  props/_surface_scan.py scans the source of the checkout under test
+   for every fallible function (name `try_*` or return type `Option<…>` / `Result<…>`; public
+   functions and trait-impl methods alike, every file).  props/c16_surface.json says for each of
+   them whether C16's correspondence drives it (then the named input-distribution counters of
+   this very run must be positive, `.valid` and `.invalid` ones alike), another property does,
+   it is a private helper modelled inside its public callers, or it is outside (not built / not
+   a failure-reporting API).  A scanned function missing from the registry — a new fallible API,
+   or one more copy-pasted impl block — is reported as `no-failing-input-found`; so are a
+   registry entry whose function is gone and a `driven` entry whose counters are zero.
+   The functions not driven by C16 are listed in the evidence (`api_surface.not_driven_by_C16`).
+2. Thorough tier: the correspondence workload once more through a release build of `emlv-C16`
+   (props/_own_release.py): the failure values (`None`, `Err`) are the same without the dev
+   profile's overflow checks.
+"""
+import json
 import os
 import sys
 
 sys.path.insert(0, os.path.dirname(os.path.abspath(__file__)))
 import _own_release  # noqa: E402
+import _surface_scan  # noqa: E402
+
+
+def surface(ctx):
+    reg_path = os.path.join(ctx["root"], "props", "c16_surface.json")
+    reg = json.load(open(reg_path))["functions"]
+    found = _surface_scan.scan(ctx["repo"])
+    keys = {e["key"]: e for e in found}
+    stats = (ctx.get("corr") or {}).get("stats", {})
+    violations = []
+
+    def nf(case, broken, **kw):
+        v = {"case": case, "kind": "surface", "no_failing_input": True, "broken": broken}
+        v.update(kw)
+        violations.append(v)
+
+    new = [e for e in found if e["key"] not in reg]
+    for e in new[:6]:
+        nf(f"fallible function not in props/c16_surface.json: {e['key']} (src/{e['file']}:{e['line']}) {e['returns']}",
+           "API surface registry of C16: a fallible function of the crate that no check is known to drive",
+           function=e)
+    stale = [k for k in reg if k not in keys]
+    for k in stale[:6]:
+        nf(f"props/c16_surface.json names {k}, which the scan no longer finds",
+           "API surface registry of C16: what it says about this function no longer checks anything")
+    undriven = []
+    for k, r in reg.items():
+        if r["status"] != "driven" or k not in keys:
+            continue
+        for prefix in r["counters"]:
+            hits = {c: n for c, n in stats.items() if c.startswith(prefix)}
+            total = sum(hits.values())
+            kinds_present = {c.rsplit(".", 1)[-1] for c in hits if c.rsplit(".", 1)[-1] in ("valid", "invalid")}
+            missing_kind = [x for x in ("valid", "invalid")
+                            if kinds_present and sum(n for c, n in hits.items() if c.endswith("." + x)) == 0]
+            if total == 0 or missing_kind:
+                undriven.append((k, prefix, missing_kind))
+    for k, prefix, missing in undriven[:6]:
+        nf(f"{k} is registered as driven by C16 but no generated operation counts under `{prefix}`"
+           + (f" with {'/'.join(missing)} inputs" if missing else ""),
+           "API surface registry of C16: a function listed as driven is not exercised by this run")
+    by_status = {}
+    for k, r in reg.items():
+        by_status.setdefault(r["status"], []).append(k)
+    not_driven = {s: sorted(f"{k} [{reg[k].get('property', '')}{': ' if reg[k].get('property') else ''}{reg[k].get('why', '')}]"
+                            for k in ks) for s, ks in by_status.items() if s != "driven"}
+    cov = {"api_surface": {
+        "fallible_functions_found": len(found), "public": sum(1 for e in found if e["public"]),
+        "driven_by_C16": len(by_status.get("driven", [])),
+        "driven_elsewhere": len(by_status.get("other", [])),
+        "private_modelled_in_callers": len(by_status.get("internal", [])),
+        "outside": len(by_status.get("outside", [])),
+        "new_unlisted": [e["key"] for e in new], "stale_entries": stale,
+        "registered_driven_but_not_exercised": [f"{k} ({p})" for k, p, _ in undriven],
+        "not_driven_by_C16": not_driven}}
+    ctx["log"](f"#stat C16 api-surface: {len(found)} fallible fns, {len(by_status.get('driven', []))} driven by C16, "
+               f"{len(by_status.get('other', []))} by other properties, {len(by_status.get('internal', []))} private, "
+               f"{len(by_status.get('outside', []))} outside; new={len(new)} stale={len(stale)} "
+               f"unexercised={len(undriven)}")
+    return violations, cov
 
 
 def run(ctx):
-    return _own_release.run(ctx, "C16", lambda op: op.startswith(("get", "mget", "range", "mask")))
+    violations, cov = surface(ctx)
+    rel = _own_release.run(ctx, "C16", lambda op: op.startswith(("get", "mget", "range", "mask")))
+    cov.update(rel.get("coverage", {}))
+    return {"violations": violations + rel.get("violations", []), "coverage": cov, "samples": rel.get("samples", [])}
